@@ -121,6 +121,15 @@ theorem c09_renew_refused_when_disallowed_or_terminated (cfg : Cfg) (s : State) 
   simp only [step, renew]
   (repeat' split) <;> simp_all
 
+/-- SENESCENT → (renewal) ACTIVE: a renewal that is not refused brings a SENESCENT lifecycle back to ACTIVE — whatever
+    the reason for its senescence and however much length it has left —, reports True, announces exactly
+    SENESCENT→ACTIVE and clears the senescence reason. -/
+theorem c09_renewal_recovers (cfg : Cfg) (s : State) (n : Option Nat) (r : Bool)
+    (hs : s.phase = .senescent) (ha : cfg.allowRenew = true) :
+    (step cfg s (.renew n r)).st.phase = .active ∧ (step cfg s (.renew n r)).ret = .bool true ∧
+    (step cfg s (.renew n r)).evs = [.change .senescent .active] ∧ (step cfg s (.renew n r)).st.reason = none := by
+  simp [step, renew, hs, ha]
+
 /-! ## Limits force senescence -/
 
 /-- Error limit: an ACTIVE lifecycle whose error count reaches the threshold, or whose error rate reaches the
@@ -250,6 +259,60 @@ theorem c09_pinned_tick_self_deadlock_witness :
     callPublic pinnedTable .lock 1 [] = .blocked ∧
     lockRun .lock 0 (step ⟨10, 3, true, none, none⟩ (init ⟨10, 3, true, none, none⟩) (.tick 1)).lock = false ∧
     callPublic pinnedTable .rlock 1 [] = .ret [] := by decide
+
+/-! ## Several lifecycles alive at once, resets in between
+
+Lifecycles share nothing but the clock.  `World` holds any number of them (slot → configuration, state); a world
+history interleaves constructions, method calls addressed to a slot and clock advances in any order. -/
+
+/-- Non-interference.  Over ANY world history during which slot `k` is not re-constructed, the lifecycle in slot `k`
+    ends exactly where its own calls and the clock advances — `proj k ws`, every call on any other lifecycle
+    erased — take it from where it was: calls on other lifecycles (their ticks, errors, renewals, resets,
+    constructions) never change its phase, length, error or operation counts, and so never move its limits. -/
+theorem c09_instances_independent (w : World) (k : Nat) (i : Inst) (ws : List WOp)
+    (h : w.get k = some i) (hn : ∀ c, WOp.new k c ∉ ws) :
+    (runW w ws).get k = some ⟨i.cfg, run i.cfg i.st (proj k ws)⟩ :=
+  independent_runW k ws w i h hn
+
+/-- A lifecycle constructed at any moment of any world — whatever the others did before — starts from the pristine
+    initial state (zero counters, full length, NASCENT) and afterwards is what its own history makes of it. -/
+theorem c09_instance_from_construction (w : World) (k : Nat) (cfg : Cfg) (ws : List WOp)
+    (hn : ∀ c, WOp.new k c ∉ ws) :
+    (runW w (.new k cfg :: ws)).get k = some ⟨cfg, run cfg (init cfg) (.adv w.now :: proj k ws)⟩ := by
+  have h := independent_runW k ws (stepW w (.new k cfg)).1 ⟨cfg, initAt cfg w.now⟩ (by simp [stepW]) hn
+  simp only [World.get, runW, h, initAt_eq, run]
+
+/-- Every lifecycle of every world reachable from the empty world is a lifecycle in the sense of all theorems
+    above: its state is `run cfg (init cfg) ops` for some history `ops` of its own, so the history theorems
+    (`c09_length_in_bounds`, `c09_hayflick`, `c09_time_limits_force_senescence`, …) hold for it; in particular its
+    length is within bounds and its timestamps are consistent. -/
+theorem c09_every_instance_is_a_lifecycle (ws : List WOp) (k : Nat) (i : Inst)
+    (h : (runW World.empty ws).get k = some i) :
+    (∃ ops, i.st = run i.cfg (init i.cfg) ops) ∧ WF i.cfg i.st ∧ Timed i.st := by
+  have hm : (k, i) ∈ (runW World.empty ws).insts := by
+    have := List.lookup_eq_some_iff.mp h
+    grind
+  obtain ⟨ops, ho⟩ := reach_runW ws World.empty (by simp [World.empty]) (k, i) hm
+  refine ⟨⟨ops, ho⟩, ?_, ?_⟩
+  · rw [ho]; exact wf_run _ ops _ (wf_init _)
+  · rw [ho]; exact timed_run _ ops _ (timed_init _)
+
+/-- `reset` restores the pristine state of THIS lifecycle (renewal count and clock kept): whatever happened before
+    the reset — on this lifecycle or on any other — the error and operation counts the error limits are judged on
+    start from zero again, as often as it is repeated. -/
+theorem c09_reset_is_pristine (cfg : Cfg) (s : State) :
+    (step cfg s .reset).st = { init cfg with renewals := s.renewals, now := s.now } := by
+  simp [step, reset, init]
+
+/-- two lifecycles interleaved, a reset in between: slot 0 reaches its error limit on its own two errors although
+    slot 1 was renewed (errors reset) in between, and a lifecycle constructed afterwards starts from zero -/
+example :
+    let c : Cfg := ⟨12, 2, true, none, none⟩
+    let w := runW World.empty [.new 0 c, .new 1 c, .on 0 .reset, .on 1 .reset, .on 0 .start, .on 1 .start,
+      .on 0 .err, .on 1 (.renew none true), .on 0 .err, .on 1 (.tick 1), .new 2 c]
+    (w.get 0).map (fun i => (i.st.phase, i.st.errors)) = some (.senescent, 2) ∧
+    (w.get 1).map (fun i => (i.st.phase, i.st.ops)) = some (.active, 1) ∧
+    (w.get 2).map (fun i => (i.st.phase, i.st.errors, i.st.ops)) = some (.nascent, 0, 0) := by decide
 
 /-! ## Agreement of the hand-written automaton with the source translated on this run
 
